@@ -111,12 +111,14 @@ Print Assumptions C16_ring_no_deadlock.
 (* with a single block the protocol of the source WOULD deadlock in the destructor (why K >= 2 is needed):
    the owner waits for a free block after posting the poison, the writer exits without freeing one *)
 Theorem C16_ring_one_block_deadlocks :
-  exists s, run (ring_step 1 4) (ring_init (ring_output_init 1) (ring_trash_init 1) 4 []) [0; 0; 0; 1; 1; 1; 1; 1] = Some s /\
-            ring_step 1 4 s 0 = None /\ ring_step 1 4 s 1 = None /\ r_ppc s = RPPoisonWait.
-Proof. eexists. vm_compute. repeat split. Qed.
+  match run (ring_step 1 4) (ring_init (ring_output_init 1) (ring_trash_init 1) 4 []) [0; 0; 0; 1; 1; 1; 1; 1] with
+  | Some s => ring_step 1 4 s 0 = None /\ ring_step 1 4 s 1 = None /\ r_ppc s = RPPoisonWait
+  | None => False
+  end.
+Proof. vm_compute. repeat split. Qed.
 
 Example C16_nonvacuous_ring_constants : 2 <= ring_blocks /\ 1 <= ring_block_size.
-Proof. split; vm_compute; repeat constructor. Qed.
+Proof. split; apply Nat.leb_le; vm_compute; reflexivity. Qed.
 
 (* a run with two writes crossing a block boundary (K = 3, B = 4) that ends with both threads finished and
    the bytes in the file in order *)
